@@ -188,6 +188,7 @@ type childOut struct {
 
 var jobSeq int
 var jobMu sync.Mutex
+var watchdogSecs = 120
 
 // runChild executes runs [from,to) of prop in one child process.
 func runChild(bin, prop string, base uint64, tier string, j job, race bool, extra ...string) *childOut {
@@ -234,7 +235,7 @@ loop:
 		case <-time.After(2 * time.Second):
 			if st, err := os.Stat(outf); err == nil && st.Size() != lastSize {
 				lastSize, lastChange = st.Size(), time.Now()
-			} else if time.Since(lastChange) > 120*time.Second {
+			} else if time.Since(lastChange) > time.Duration(watchdogSecs)*time.Second {
 				cmd.Process.Kill()
 				killed = true
 			}
@@ -265,7 +266,7 @@ loop:
 	if werr != nil || killed {
 		stderr, _ := os.ReadFile(errf)
 		if killed {
-			co.trouble = fmt.Sprintf("watchdog: run %d made no progress for 120 s", begun)
+			co.trouble = fmt.Sprintf("watchdog: run %d made no progress for %d s", begun, watchdogSecs)
 		} else if begun >= 0 {
 			rule, detail := classifyCrash(string(stderr))
 			co.crashed = &Result{Run: begun, Seed: begunSeed, Viol: []Violation{{rule, detail}}, Faults: map[string]int{}, Probes: map[string]int{}}
@@ -710,6 +711,9 @@ type violRec struct {
 
 func doCheck(pc *propCfg, base uint64) int {
 	t0 := time.Now()
+	if pc.WatchdogSecs > 0 {
+		watchdogSecs = pc.WatchdogSecs
+	}
 	bin := build(pc.Race)
 	defer cleanup()
 	buildS := time.Since(t0).Seconds()
